@@ -208,20 +208,40 @@ example :
     (W.atomOp (Atom.sym 0) .and (.grp (.atomOp (.sym 1) .or (.atom (.sym 2))))).readS.eval (fun i => i == 2) = false := by
   decide
 
-/-- `not` of a typed operand is one `NotExprNode` around it (two `not`s stay two). -/
+/-- `not` of a typed operand is one `NotExprNode` around it (two `not`s stay two), written with or
+    without parentheses, and it negates WHATEVER the operand evaluates to: `env` is an arbitrary
+    valuation — one Bool per atom, i.e. per atom per row.  Atoms are opaque here (a boolean symbol, a
+    comparison, in / between / contains, a set function); a row on which an atom's field is NULL or
+    its set is empty is just another valuation (the atom is then false, or true for `!=` / `not
+    contains`), so the statement covers those rows: no assumption that an atom and some
+    "complementary" atom have opposite values is made or needed. -/
 theorem typed_not_negates (isBool : α → Bool) (w : W α) (t : T α)
     (h : query L G isBool w.render = .ok t) :
+    query L G isBool (W.not w).render = .ok (.not t) ∧
     query L G isBool (W.not (.grp w)).render = .ok (.not t) ∧
     query L G isBool (W.not (.grp (.not (.grp w)))).render = .ok (.not (.not t)) ∧
+    (∀ env, (T.not t).eval env = !(t.eval env)) ∧
     ∀ env, (T.not (.not t)).eval env = t.eval env := by
   have h' := (query_ok_iff isBool w t).1 h
-  refine ⟨?_, ?_, fun env => by simp [T.eval]⟩
+  refine ⟨?_, ?_, ?_, fun env => rfl, fun env => by simp [T.eval]⟩
+  · rw [query_ok_iff]
+    show transform isBool (.not w.readS) = _
+    rw [transform_not, h']; rfl
   · rw [query_ok_iff]
     show transform isBool (.not w.readS) = _
     rw [transform_not, h']; rfl
   · rw [query_ok_iff]
     show transform isBool (.not (.not w.readS)) = _
     rw [transform_not, transform_not, h']; rfl
+
+/-- non-vacuity: a single atom under `not`, with a valuation that makes the atom false (the
+    situation of a comparison over a NULL field): the negation is true. -/
+example : query L G (fun _ => true) (W.not (.grp (.atom (Atom.sym 0)))).render = .ok (.not (.atom (.sym 0))) ∧
+    (T.not (.atom (Atom.sym 0))).eval (fun _ => false) = true := by
+  constructor
+  · exact ((typed_not_negates (fun _ => true) (.atom (Atom.sym 0)) (.atom (.sym 0))
+      (by rw [query_ok_iff]; rfl)).2.1)
+  · rfl
 
 /-! ## clause 4 (headline): `and` binds tighter than `or`, independent of the order -/
 
